@@ -463,8 +463,8 @@ func Input(l *InputSharedVars, g *GlobalVarsMain, hPath *HFilePath, driConfig *C
 												g.SAAT1[SLFINDindex] = g.SAAT[SLFINDindex] - 1
 												g.SAAT2[SLFINDindex] = g.SAAT[SLFINDindex]
 											} else {
-												sat1 := crpman[4:8] + SAT[4:]
-												sat2 := crpman[9:13] + SAT[4:]
+												sat1 := crpman[4:8] + dateYearPart(SAT)
+												sat2 := crpman[9:13] + dateYearPart(SAT)
 												if crpman[24:25] == "x" {
 													g.TSLMAX[SLFINDindex] = ValAsFloat(crpman[19:24], autfil, crpman)
 													g.TSLMIN[SLFINDindex] = -1
@@ -486,7 +486,7 @@ func Input(l *InputSharedVars, g *GlobalVarsMain, hPath *HFilePath, driConfig *C
 											if ValAsInt(crpman[14:18], autfil, crpman) == 0 {
 												_, g.ERNTE2[SLFINDindex] = g.Datum(ERNT)
 											} else {
-												har2 := crpman[14:18] + ERNT[4:]
+												har2 := crpman[14:18] + dateYearPart(ERNT)
 												g.MINHMOI[SLFINDindex] = ValAsFloat(crpman[39:44], autfil, crpman)
 												g.MAXHMOI[SLFINDindex] = ValAsFloat(crpman[46:51], autfil, crpman)
 												g.RAINLIM[SLFINDindex] = ValAsFloat(crpman[53:57], autfil, crpman)
